@@ -38,7 +38,7 @@ func (n *Nodis) GetSet(key string, value []byte) []byte {
 		v = meta.value.(*str.String).GetSet(value)
 		n.signalModifiedKey(key, meta)
 		n.notify(func() []patch.Op {
-			return []patch.Op{{Type: patch.OpTypeSet, Data: &patch.OpSet{Key: key, Value: value}}}
+			return []patch.Op{{Type: patch.OpTypeSet, Data: &patch.OpSet{Key: key, Value: value, KeepTTL: true}}}
 		})
 		return nil
 	})
@@ -149,7 +149,7 @@ func (n *Nodis) Incr(key string) (int64, error) {
 		m := unsafe.Slice(unsafe.StringData(vv), len(vv))
 		n.signalModifiedKey(key, meta)
 		n.notify(func() []patch.Op {
-			return []patch.Op{{Type: patch.OpTypeSet, Data: &patch.OpSet{Key: key, Value: m}}}
+			return []patch.Op{{Type: patch.OpTypeSet, Data: &patch.OpSet{Key: key, Value: m, KeepTTL: true}}}
 		})
 		return nil
 	})
@@ -169,7 +169,7 @@ func (n *Nodis) IncrBy(key string, increment int64) (int64, error) {
 		m := unsafe.Slice(unsafe.StringData(vv), len(vv))
 		n.signalModifiedKey(key, meta)
 		n.notify(func() []patch.Op {
-			return []patch.Op{{Type: patch.OpTypeSet, Data: &patch.OpSet{Key: key, Value: m}}}
+			return []patch.Op{{Type: patch.OpTypeSet, Data: &patch.OpSet{Key: key, Value: m, KeepTTL: true}}}
 		})
 		return nil
 	})
@@ -191,7 +191,7 @@ func (n *Nodis) Decr(key string) (int64, error) {
 		m := unsafe.Slice(unsafe.StringData(vv), len(vv))
 		n.signalModifiedKey(key, meta)
 		n.notify(func() []patch.Op {
-			return []patch.Op{{Type: patch.OpTypeSet, Data: &patch.OpSet{Key: key, Value: m}}}
+			return []patch.Op{{Type: patch.OpTypeSet, Data: &patch.OpSet{Key: key, Value: m, KeepTTL: true}}}
 		})
 		return nil
 	})
@@ -212,7 +212,7 @@ func (n *Nodis) DecrBy(key string, decrement int64) (int64, error) {
 		m := unsafe.Slice(unsafe.StringData(vv), len(vv))
 		n.signalModifiedKey(key, meta)
 		n.notify(func() []patch.Op {
-			return []patch.Op{{Type: patch.OpTypeSet, Data: &patch.OpSet{Key: key, Value: m}}}
+			return []patch.Op{{Type: patch.OpTypeSet, Data: &patch.OpSet{Key: key, Value: m, KeepTTL: true}}}
 		})
 		return nil
 	})
@@ -232,7 +232,7 @@ func (n *Nodis) IncrByFloat(key string, increment float64) (float64, error) {
 		m := unsafe.Slice(unsafe.StringData(vv), len(vv))
 		n.signalModifiedKey(key, meta)
 		n.notify(func() []patch.Op {
-			return []patch.Op{{Type: patch.OpTypeSet, Data: &patch.OpSet{Key: key, Value: m}}}
+			return []patch.Op{{Type: patch.OpTypeSet, Data: &patch.OpSet{Key: key, Value: m, KeepTTL: true}}}
 		})
 		return nil
 	})
@@ -248,7 +248,7 @@ func (n *Nodis) SetBit(key string, offset int64, value bool) int64 {
 		v = k.SetBit(offset, value)
 		n.signalModifiedKey(key, meta)
 		n.notify(func() []patch.Op {
-			return []patch.Op{{Type: patch.OpTypeSet, Data: &patch.OpSet{Key: key, Value: k.Get()}}}
+			return []patch.Op{{Type: patch.OpTypeSet, Data: &patch.OpSet{Key: key, Value: k.Get(), KeepTTL: true}}}
 		})
 		return nil
 	})
@@ -296,7 +296,7 @@ func (n *Nodis) Append(key string, value []byte) int64 {
 		v = k.Append(value)
 		n.signalModifiedKey(key, meta)
 		n.notify(func() []patch.Op {
-			return []patch.Op{{Type: patch.OpTypeSet, Data: &patch.OpSet{Key: key, Value: k.Get()}}}
+			return []patch.Op{{Type: patch.OpTypeSet, Data: &patch.OpSet{Key: key, Value: k.Get(), KeepTTL: true}}}
 		})
 		return nil
 	})
@@ -341,7 +341,7 @@ func (n *Nodis) SetRange(key string, offset int64, value []byte) int64 {
 		v = k.SetRange(offset, value)
 		n.signalModifiedKey(key, meta)
 		n.notify(func() []patch.Op {
-			return []patch.Op{{Type: patch.OpTypeSet, Data: &patch.OpSet{Key: key, Value: k.Get()}}}
+			return []patch.Op{{Type: patch.OpTypeSet, Data: &patch.OpSet{Key: key, Value: k.Get(), KeepTTL: true}}}
 		})
 		return nil
 	})
